@@ -15,6 +15,18 @@ package flight12
 //@ ensures prf-over-merged-transcript: called("prf.VerifyDataServer!") ==> sameSlice(argBytes("prf.VerifyDataServer!", 1), retBytes("Cache.PullAndMerge!", 0))
 //@ ensures transcript-through-client-finished: called("Cache.PullAndMerge!") ==> called("handshakeRulesThroughClientFinished!") && calledBefore("handshakeRulesThroughClientFinished!", "Cache.PullAndMerge!")
 //@ ensures no-success-on-mismatch: called("bytes.Equal!") && !retBool("bytes.Equal!", 0) ==> result0 == 0 && result1 != nil && result2 != nil
+//@ ensures transcript-list-is-the-constructors: called("Cache.PullAndMerge!") ==> sameSlice(RULES(), CFRULES()) && argAs("handshakeRulesThroughClientFinished!", 0, uint16(0)) == old(cfg.InitialEpoch)
+//@ ensures transcript-ten-messages: called("Cache.PullAndMerge!") ==> len(RULES()) == 10
+//@ ensures transcript-m0-client-hello: always("Cache.PullAndMerge!", "len(RULES()) == 10 && RULE(RULES()[0], handshake.TypeClientHello, cfg.InitialEpoch, true)")
+//@ ensures transcript-m1-server-hello: always("Cache.PullAndMerge!", "len(RULES()) == 10 && RULE(RULES()[1], handshake.TypeServerHello, cfg.InitialEpoch, false)")
+//@ ensures transcript-m2-server-certificate: always("Cache.PullAndMerge!", "len(RULES()) == 10 && RULE(RULES()[2], handshake.TypeCertificate, cfg.InitialEpoch, false)")
+//@ ensures transcript-m3-server-key-exchange: always("Cache.PullAndMerge!", "len(RULES()) == 10 && RULE(RULES()[3], handshake.TypeServerKeyExchange, cfg.InitialEpoch, false)")
+//@ ensures transcript-m4-certificate-request: always("Cache.PullAndMerge!", "len(RULES()) == 10 && RULE(RULES()[4], handshake.TypeCertificateRequest, cfg.InitialEpoch, false)")
+//@ ensures transcript-m5-server-hello-done: always("Cache.PullAndMerge!", "len(RULES()) == 10 && RULE(RULES()[5], handshake.TypeServerHelloDone, cfg.InitialEpoch, false)")
+//@ ensures transcript-m6-client-certificate: always("Cache.PullAndMerge!", "len(RULES()) == 10 && RULE(RULES()[6], handshake.TypeCertificate, cfg.InitialEpoch, true)")
+//@ ensures transcript-m7-client-key-exchange: always("Cache.PullAndMerge!", "len(RULES()) == 10 && RULE(RULES()[7], handshake.TypeClientKeyExchange, cfg.InitialEpoch, true)")
+//@ ensures transcript-m8-certificate-verify: always("Cache.PullAndMerge!", "len(RULES()) == 10 && RULE(RULES()[8], handshake.TypeCertificateVerify, cfg.InitialEpoch, true)")
+//@ ensures transcript-m9-client-finished: always("Cache.PullAndMerge!", "len(RULES()) == 10 && RULE(RULES()[9], handshake.TypeFinished, cfg.InitialEpoch+1, true)")
 //@ ensures failure-is-fatal: result0 == 0 && result1 != nil ==> result1.Level == alert.Fatal
 //@ end
 
@@ -32,7 +44,42 @@ package flight12
 //@ assume-pure CipherSuite.KeyExchangeAlgorithm
 //@ define anonymous(state) (state.CipherSuite.AuthenticationType() == ciphersuite.AuthenticationTypeAnonymous)
 //@ define RULES() argAs("Cache.PullAndMerge!", 1, []dtlsflight.HandshakeCachePullRule(nil))
+//@ define CFRULES() retAs("handshakeRulesThroughClientFinished!", 0, []dtlsflight.HandshakeCachePullRule(nil))
+//@ define CKRULES() retAs("handshakeRulesThroughClientKeyExchange!", 0, []dtlsflight.HandshakeCachePullRule(nil))
 //@ define RULE(r, typ, ep, cli) (r.Typ == typ && r.Epoch == ep && r.IsClient == cli && !r.Optional)
+
+// RFC 5246 7.4.8 / 7.4.9: handshake_messages is every handshake message sent or received, in order,
+// starting at ClientHello: ClientHello(c) ServerHello(s) Certificate(s) ServerKeyExchange(s)
+// CertificateRequest(s) ServerHelloDone(s) Certificate(c) ClientKeyExchange(c) [CertificateVerify(c)
+// Finished(c, next epoch)]. Each list element is spelled out: type, epoch, sender, not optional.
+//@ func handshakeRulesThroughClientKeyExchange
+//@ ensures eight-messages: len(result) == 8
+//@ ensures exact-capacity: cap(result) == 8 && offsetOf(result) == 0
+//@ ensures m0-client-hello: RULE(result[0], handshake.TypeClientHello, epoch, true)
+//@ ensures m1-server-hello: RULE(result[1], handshake.TypeServerHello, epoch, false)
+//@ ensures m2-server-certificate: RULE(result[2], handshake.TypeCertificate, epoch, false)
+//@ ensures m3-server-key-exchange: RULE(result[3], handshake.TypeServerKeyExchange, epoch, false)
+//@ ensures m4-certificate-request: RULE(result[4], handshake.TypeCertificateRequest, epoch, false)
+//@ ensures m5-server-hello-done: RULE(result[5], handshake.TypeServerHelloDone, epoch, false)
+//@ ensures m6-client-certificate: RULE(result[6], handshake.TypeCertificate, epoch, true)
+//@ ensures m7-client-key-exchange: RULE(result[7], handshake.TypeClientKeyExchange, epoch, true)
+//@ ensures fresh-list: fresh(result)
+//@ end
+
+//@ func handshakeRulesThroughClientFinished
+//@ ensures ten-messages: len(result) == 10
+//@ ensures m0-client-hello: RULE(result[0], handshake.TypeClientHello, epoch, true)
+//@ ensures m1-server-hello: RULE(result[1], handshake.TypeServerHello, epoch, false)
+//@ ensures m2-server-certificate: RULE(result[2], handshake.TypeCertificate, epoch, false)
+//@ ensures m3-server-key-exchange: RULE(result[3], handshake.TypeServerKeyExchange, epoch, false)
+//@ ensures m4-certificate-request: RULE(result[4], handshake.TypeCertificateRequest, epoch, false)
+//@ ensures m5-server-hello-done: RULE(result[5], handshake.TypeServerHelloDone, epoch, false)
+//@ ensures m6-client-certificate: RULE(result[6], handshake.TypeCertificate, epoch, true)
+//@ ensures m7-client-key-exchange: RULE(result[7], handshake.TypeClientKeyExchange, epoch, true)
+//@ ensures m8-certificate-verify: RULE(result[8], handshake.TypeCertificateVerify, epoch, true)
+//@ ensures m9-client-finished: RULE(result[9], handshake.TypeFinished, epoch+1, true)
+//@ ensures fresh-list: fresh(result)
+//@ end
 
 // Abbreviated handshake, server side (RFC 5246 7.4.9 / 7.3): the client's Finished is compared with
 // PRF(master_secret, "client finished", Hash(ClientHello, ServerHello, server Finished)).
@@ -81,6 +128,18 @@ package flight12
 //@ ensures compared-with-prf-output: called("bytes.Equal!") ==> sameSlice(argBytes("bytes.Equal!", 0), retBytes("prf.VerifyDataClient!", 0))
 //@ ensures prf-over-merged-transcript: called("prf.VerifyDataClient!") ==> sameSlice(argBytes("prf.VerifyDataClient!", 1), retBytes("Cache.PullAndMerge!", 0))
 //@ ensures no-success-on-mismatch: called("bytes.Equal!") && !retBool("bytes.Equal!", 0) ==> result0 == 0 && result1 != nil && result2 != nil
+// The first eight rules of both transcripts are the constructor's list (contract above); what this function
+// adds is checked here: which list reaches which check, with which epoch, and the ninth element.
+// [engine limit: element-wise clauses about append(<constructor result>, x) cost > 10 s per return site in this
+//  function (27 return sites), so the copy of the first eight elements by append is not re-proved here]
+//@ ensures transcript-eight-or-nine-messages: always("Cache.PullAndMerge!", "len(RULES()) == 8 || len(RULES()) == 9")
+//@ ensures transcript-of-eight-is-the-constructors-list: always("Cache.PullAndMerge!", "len(RULES()) == 8 ==> sameSlice(RULES(), CKRULES())")
+//@ ensures transcript-m8-certificate-verify: always("Cache.PullAndMerge!", "len(RULES()) == 9 ==> RULE(RULES()[8], handshake.TypeCertificateVerify, cfg.InitialEpoch, true)")
+//@ ensures finished-transcript-nine-messages: called("bytes.Equal!") ==> len(RULES()) == 9
+//@ ensures transcript-lists-start-from-the-constructor: always("Cache.PullAndMerge!", "calledBefore(\"handshakeRulesThroughClientKeyExchange!\", \"Cache.PullAndMerge!\") && ncalls(\"handshakeRulesThroughClientKeyExchange!\") == ncalls(\"Cache.PullAndMerge!\")")
+//@ ensures transcript-epoch-is-the-initial-epoch: always("Cache.PullAndMerge!", "argAs(\"handshakeRulesThroughClientKeyExchange!\", 0, uint16(0)) == cfg.InitialEpoch")
+//@ ensures prf-keyed-by-master-secret: called("prf.VerifyDataClient!") ==> sameSlice(argBytes("prf.VerifyDataClient!", 0), state.MasterSecret)
+//@ ensures certificate-verify-over-transcript-through-client-key-exchange: always("VerifyCertificateVerify!", "len(RULES()) == 8 && sameSlice(argBytes(\"VerifyCertificateVerify!\", 0), retBytes(\"Cache.PullAndMerge!\", 0))")
 //@ ensures policy-require-any: result0 == Flight6 && !anonymous(state) && cfg.ClientAuth == dtlsconfig.RequireAnyClientCert ==> state.PeerCertificates != nil
 //@ ensures policy-verify-if-given: result0 == Flight6 && !anonymous(state) && cfg.ClientAuth == dtlsconfig.VerifyClientCertIfGiven ==> state.PeerCertificates == nil || state.PeerCertificatesVerified
 //@ ensures policy-require-and-verify: result0 == Flight6 && !anonymous(state) && cfg.ClientAuth == dtlsconfig.RequireAndVerifyClientCert ==> state.PeerCertificates != nil && state.PeerCertificatesVerified
